@@ -9,6 +9,7 @@ PROPS["C17"] = dict(
     check_fn="check_case_c",
     case_type="ccase",
     coq_shard=40,
+    shrink_budget=160,
     streams=[dict(name="main", quick=320, thorough=8000),
              dict(name="extreme", quick=80, thorough=2000),
              dict(name="price", quick=40, thorough=1000)],
